@@ -225,6 +225,9 @@ def run(R):
     R.assumptions = ["Irving is certified per output, not modelled", "thresholds are the exact rationals of float(n ** (l/(lambda+1)))"]
     items = gen(R, 8 if R.thorough else 6, 3000 if R.thorough else 600)
     items += gen_blocks(R, 200 if R.thorough else 16)
+    # the maximum-weight-closed-subset stage of the pipeline, driven directly on random rotation posets (as in C03's check)
+    from harness import c03
+    c03.run_closed(R, [c03.gen_poset(R) for _ in range(2000 if R.thorough else 250)])
     run_items(R, items)
 
 
